@@ -260,7 +260,10 @@ pub fn execute(case: &BlindCase, ctx: &mut Ctx) {
     // the creator hands the PSET to the first blinder
     let mut ps = match hop(ctx, &f.pset, &case.hops.get(0).cloned().unwrap_or_else(HopPlan::perfect)) {
         Some(x) => x,
-        None => return,
+        None => {
+            ctx.violate("C09.hop", "creator", "the creator's PSET could not be serialized and passed on to the first blinder".to_string());
+            return;
+        }
     };
     let marked: Vec<usize> = (0..f.receivers.len()).filter(|i| f.receivers[*i].is_some()).collect();
     let owner_of_output = |ps: &Pset, oi: usize| -> Option<usize> { ps.outputs()[oi].blinder_index.map(|b| f.owners[b as usize]) };
@@ -322,7 +325,12 @@ pub fn execute(case: &BlindCase, ctx: &mut Ctx) {
         // hand over (serialized) to the next party / to the verifier
         ps = match hop(ctx, &after, &case.hops.get(pos + 1).cloned().unwrap_or_else(HopPlan::perfect)) {
             Some(x) => x,
-            None => return,
+            None => {
+                // "...with the PSET serialized and passed on between them": a blinder's result that the next party cannot
+                // decode ends the protocol (the decode failure itself is also reported under C07)
+                ctx.violate("C09.hop", if last { "after-last" } else { "after-non-last" }, format!("the PSET produced by party {} ({} scalars) could not be serialized and passed on", party, after.global.scalars.len()));
+                return;
+            }
         };
     }
     // ---- postconditions
